@@ -133,7 +133,9 @@ def _one_factory(cs, col, pats, refs, grp, idx, fac, imp, imp_name, cap, budget)
             hostile = []
             if n_opts:
                 hostile = [[n + 3 for n in n_opts], [-1] * len(n_opts), [0] * len(n_opts) + [1, 2],
-                           [n - 1 for n in n_opts] + [0]]
+                           [n - 1 for n in n_opts] + [0], [-2] * len(n_opts),
+                           [-3 if k % 2 == 0 else 0 for k in range(len(n_opts))],
+                           [0 if k % 2 == 0 else -2 for k in range(len(n_opts))]]
             else:
                 hostile = [[1, 0], [-2]]
             table = {}
